@@ -54,7 +54,12 @@ def gen_cases(rng, thorough):
         return h
     vss = [(1, 2, ("s", 0x1234)), (1, 4, ("s", 0xdeadbeef)), (0, 6, ("s", 0x0102030405060708)), (0, 9, ("s", 0x3fc00001)),
            (1, 0xA, ("s", 0x400921fb54442d18)), (0, 0xB, ("b", b"abc")), (1, 0x82, ("e", 2, [1, 0xfffe, 0x1234])),
-           (0, 0x84, ("e", 4, [0xdeadbeef, 7])), (1, 0x8A, ("e", 8, [0x400921fb54442d18])), (0, 0x80, ("b", b"\x01\x02"))]
+           (0, 0x84, ("e", 4, [0xdeadbeef, 7])), (1, 0x8A, ("e", 8, [0x400921fb54442d18])), (0, 0x80, ("b", b"\x01\x02")),
+           # declared byte length NOT a multiple of the element size (a partial trailing element):
+           # only whole elements are converted, on either host
+           (0, 0x82, ("e", 2, [1, 0xfffe, 0x1234], -1)), (1, 0x84, ("e", 4, [0xdeadbeef, 7, 0x01020304], -3)),
+           (0, 0x86, ("e", 8, [0x0102030405060708, 0x1122334455667788], -5)), (1, 0x89, ("e", 4, [0x3fc00000, 0x40490fdb], -2)),
+           (0, 0x8A, ("e", 8, [0x400921fb54442d18, 0x3ff0000000000000], -1)), (1, 0x83, ("e", 2, [0x8001, 2], -1))]
     for mode, code, v in vss:
         path = ("sid", rng.getrandbits(32)) if mode == 1 else ("path", b"V.Sp")
         ep = (4 if mode == 1 else 2 + len(path[1]))
@@ -68,7 +73,7 @@ def gen_cases(rng, thorough):
         elif v[0] == "b":
             dl = "vss_setdata a 0 b %d %s" % (len(v[1]), hexs(v[1]))
         else:
-            dl = "vss_setdata a 0 e %d %s" % (v[1] * len(v[2]), ",".join(str(x) for x in v[2]))
+            dl = "vss_setdata a 0 e %d %s" % (v[1] * len(v[2]) + (v[3] if len(v) > 3 else 0), ",".join(str(x) for x in v[2]))
         cases.append({"kind": "vss", "mode": mode, "code": code, "v": v, "path": path, "bg": bytes(bg),
                       "ops": ["buf a " + hexs(bg), pl, dl, "dump a", "vss_calc a 0", "vss_getdata a 0 1"]})
     return cases
@@ -133,7 +138,7 @@ def c_for(i, c, exp):
             k = v[1]
             ct = {2: "uint16_t", 4: "uint32_t", 8: "uint64_t"}[k]
             L.append("    %s el[] = {%s}; VssDataUint16Array_t arr = { %d, (uint16_t*)el }; d.data_uint16_array = &arr;" % (
-                ct, ",".join("%dULL" % x for x in v[2]), k * len(v[2])))
+                ct, ",".join("%dULL" % x for x in v[2]), k * len(v[2]) + (v[3] if len(v) > 3 else 0)))
             L.append("    Avtp_Vss_SetVssData((Avtp_Vss_t*)buf, &d);")
         expect_bytes("buf", exp[0].split()[1], "enc")
         L.append("    __CPROVER_assert(Avtp_Vss_CalcVssPathLength((Avtp_Vss_t*)buf) == %s, \"case %d calc\");" % (exp[1].split()[1], i))
@@ -148,8 +153,9 @@ def c_for(i, c, exp):
             ct = {2: "uint16_t", 4: "uint32_t", 8: "uint64_t"}[k]
             L.append("    %s out[%d]; VssDataUint16Array_t oa = { 0, (uint16_t*)out }; VssData_t o; o.data_uint16_array = &oa;" % (ct, max(1, len(v[2]))))
             L.append("    Avtp_Vss_GetVssData((Avtp_Vss_t*)buf, &o);")
-            L.append("    __CPROVER_assert(oa.data_length == %d, \"case %d decode-len\");" % (k * len(v[2]), i))
-            for j, x in enumerate(v[2]):
+            declared = k * len(v[2]) + (v[3] if len(v) > 3 else 0)
+            L.append("    __CPROVER_assert(oa.data_length == %d, \"case %d decode-len\");" % (declared, i))
+            for j, x in enumerate(v[2][:declared // k]):          # whole elements only
                 L.append("    __CPROVER_assert(out[%d] == (%s)%dULL, \"case %d decode\");" % (j, ct, x, i))
     L.append("  }")
     return "\n".join(L)
